@@ -56,7 +56,7 @@ def run(ctx):
                'stored predictions (model_fluxes) are themselves checked against truth by C04')
     ctx.require_events('plot:call', 'curve-point:checked', 'curve-point:truth-checked')
     ctx.require_regimes('mode:interp', 'mode:largest', 'mode:largest+smallest', 'mode:all', 'input:object', 'input:file', 'multi-aperture', 'single-aperture',
-                        'cube:asc', 'cube:desc', 'selected>=2', 'beyond-table')
+                        'cube:asc', 'cube:desc', 'selected>=2', 'beyond-table', 'filters:unsorted')
     n_pk = 5 if ctx.quick else 30
     for ip in range(n_pk):
         n_m = int(rng.integers(3, 8))
@@ -79,7 +79,10 @@ def run(ctx):
         ctx.regime('cube:desc' if desc else 'cube:asc')
         ctx.regime('multi-aperture' if multi else 'single-aperture')
         nb = int(rng.integers(3, 5))
-        bi = np.sort(rng.choice(np.arange(1, n_w - 1), nb, replace=False))
+        bi = rng.choice(np.arange(1, n_w - 1), nb, replace=False)      # filters in arbitrary (not wavelength-sorted) order
+        if ip % 4 == 3:
+            bi = np.sort(bi)
+        ctx.regime('filters:sorted' if np.all(np.diff(bi) > 0) else 'filters:unsorted')
         wav = truth.wav[bi]
         lw = np.array([0.05, 0.2, 0.55, 1.0, 3.0, 10.0, 100.0, 2000.0])
         lc = 200.0 * (lw / 0.55) ** -1.3
